@@ -1,0 +1,322 @@
+//! `sentpk`: `SentPackets` ring, `PacketSpace::{sent,take}` and `PathData::{sent,remove_in_flight}`
+//! (`InFlight` counters) driven the way `Connection` drives them: one path, three packet number spaces.
+//!
+//! Ring-level requests act on `spaces[sp].sent_packets` directly; accounting requests go through
+//! `PathData::sent` / `PacketSpace::take` + `PathData::remove_in_flight` exactly as
+//! `PacketBuilder::finish_and_track`, `Connection::{on_ack_received,detect_lost_packets,discard_space}` do.
+use std::fmt::Write as _;
+use std::net::{Ipv4Addr, SocketAddr};
+use std::ops::Bound;
+
+use super::{num, Comp, BAD};
+use crate::config::TransportConfig;
+use crate::connection::paths::PathData;
+use crate::connection::spaces::{PacketSpace, SentPacket};
+use crate::Instant;
+
+/// Largest distance between the ring's offset and an inserted packet number that the executor accepts
+/// (`SentPackets::insert` pads the gap with vacant slots, i.e. allocates it).
+const MAX_SPAN: u64 = 4096;
+const MAX_BURST: u64 = 1500;
+const MAX_PN: u64 = 1 << 62;
+
+pub(super) struct SentpkC {
+    now: Instant,
+    spaces: [PacketSpace; 3],
+    path: PathData,
+}
+
+impl SentpkC {
+    pub(super) fn new() -> Self {
+        let now = Instant::now();
+        Self {
+            now,
+            spaces: [
+                PacketSpace::new(now),
+                PacketSpace::new(now),
+                PacketSpace::new(now),
+            ],
+            path: PathData::new(
+                SocketAddr::new(Ipv4Addr::LOCALHOST.into(), 4433),
+                false,
+                None,
+                0,
+                now,
+                &TransportConfig::default(),
+            ),
+        }
+    }
+
+    fn packet(&self, tag: u64, size: u16, ae: bool, generation: u64) -> SentPacket {
+        SentPacket {
+            path_generation: generation,
+            time_sent: self.now,
+            size,
+            ack_eliciting: ae,
+            // identity of the packet, so that responses show WHICH packet came back
+            largest_acked: Some(tag),
+            retransmits: Default::default(),
+            stream_frames: Default::default(),
+        }
+    }
+
+    fn ring(&self, sp: usize) -> String {
+        let (o, n, f) = self.spaces[sp].sent_packets.verif_state();
+        format!("o={o} n={n} f={f}")
+    }
+
+    fn acct(&self, sp: usize) -> String {
+        format!(
+            "b={} a={} t={} l={} {}",
+            self.path.in_flight.bytes,
+            self.path.in_flight.ack_eliciting,
+            self.spaces[sp].unacked_non_ack_eliciting_tail,
+            self.spaces[sp].largest_ack_eliciting_sent,
+            self.ring(sp)
+        )
+    }
+
+    /// would `SentPackets::insert(pn, ..)` pad more than MAX_SPAN slots?
+    fn too_far(&self, sp: usize, pn: u64) -> bool {
+        let (o, n, _) = self.spaces[sp].sent_packets.verif_state();
+        n != 0 && pn >= o && pn - o > MAX_SPAN
+    }
+}
+
+fn pkt(p: &SentPacket) -> String {
+    format!(
+        "{}:{}:{}:{}",
+        p.largest_acked.unwrap_or(u64::MAX),
+        p.size,
+        u8::from(p.ack_eliciting),
+        p.path_generation
+    )
+}
+
+fn list(items: Vec<String>) -> String {
+    if items.is_empty() {
+        "-".into()
+    } else {
+        items.join(",")
+    }
+}
+
+fn space(s: &str) -> Option<usize> {
+    match s {
+        "0" => Some(0),
+        "1" => Some(1),
+        "2" => Some(2),
+        _ => None,
+    }
+}
+
+fn flag(s: &str) -> Option<bool> {
+    match s {
+        "0" => Some(false),
+        "1" => Some(true),
+        _ => None,
+    }
+}
+
+fn pn(s: &str) -> Option<u64> {
+    num(s).filter(|&x| x < MAX_PN)
+}
+
+fn bound(s: &str) -> Option<Bound<u64>> {
+    if s == "u" {
+        return Some(Bound::Unbounded);
+    }
+    let n = num(s.get(1..)?)?;
+    match s.as_bytes()[0] {
+        b'i' => Some(Bound::Included(n)),
+        b'e' => Some(Bound::Excluded(n)),
+        _ => None,
+    }
+}
+
+impl Comp for SentpkC {
+    fn exec(&mut self, w: &[&str]) -> String {
+        match w {
+            ["rinsert", sp, p, size, ae, g] => {
+                let (Some(sp), Some(p), Some(size), Some(ae), Some(g)) =
+                    (space(sp), pn(p), num(size), flag(ae), num(g))
+                else {
+                    return BAD.into();
+                };
+                let Ok(size) = u16::try_from(size) else {
+                    return BAD.into();
+                };
+                if self.too_far(sp, p) {
+                    return BAD.into();
+                }
+                let v = self.packet(p, size, ae, g);
+                self.spaces[sp].sent_packets.insert(p, v);
+                format!("ok {}", self.ring(sp))
+            }
+            ["rremove", sp, p] => {
+                let (Some(sp), Some(p)) = (space(sp), pn(p)) else {
+                    return BAD.into();
+                };
+                match self.spaces[sp].sent_packets.remove(p) {
+                    Some(v) => format!("some {} {}", pkt(&v), self.ring(sp)),
+                    None => format!("none {}", self.ring(sp)),
+                }
+            }
+            ["get", sp, p] => {
+                let (Some(sp), Some(p)) = (space(sp), pn(p)) else {
+                    return BAD.into();
+                };
+                match self.spaces[sp].sent_packets.get(p) {
+                    Some(v) => format!("some {}", pkt(v)),
+                    None => "none".into(),
+                }
+            }
+            ["range", sp, lo, hi] => {
+                let (Some(sp), Some(lo), Some(hi)) = (space(sp), bound(lo), bound(hi)) else {
+                    return BAD.into();
+                };
+                let items = self.spaces[sp]
+                    .sent_packets
+                    .range((lo, hi))
+                    .map(|(n, v)| format!("{n}={}", pkt(v)))
+                    .collect();
+                format!("ok {}", list(items))
+            }
+            ["hif", sp] => {
+                let Some(sp) = space(sp) else {
+                    return BAD.into();
+                };
+                format!("{}", self.spaces[sp].has_in_flight())
+            }
+            ["values", sp] => {
+                let Some(sp) = space(sp) else {
+                    return BAD.into();
+                };
+                let items = self.spaces[sp]
+                    .sent_packets
+                    .values_mut()
+                    .map(|v| pkt(v))
+                    .collect();
+                format!("ok {}", list(items))
+            }
+            ["dump", sp] => {
+                let Some(sp) = space(sp) else {
+                    return BAD.into();
+                };
+                let items = self.spaces[sp]
+                    .sent_packets
+                    .verif_slots()
+                    .map(|s| s.map_or_else(|| "_".to_string(), pkt))
+                    .collect();
+                format!("ok {} {}", self.ring(sp), list(items))
+            }
+            ["sent", sp, p, size, ae, g] => {
+                let (Some(sp), Some(p), Some(size), Some(ae), Some(g)) =
+                    (space(sp), pn(p), num(size), flag(ae), num(g))
+                else {
+                    return BAD.into();
+                };
+                let Ok(size) = u16::try_from(size) else {
+                    return BAD.into();
+                };
+                if self.too_far(sp, p) {
+                    return BAD.into();
+                }
+                let v = self.packet(p, size, ae, g);
+                // PathData::sent returns nothing; the forgotten packet shows in the counters and in
+                // the ring, and is reported by comparing the ring before/after
+                let before: Vec<(u64, String)> = self.spaces[sp]
+                    .sent_packets
+                    .range(..)
+                    .map(|(n, v)| (n, pkt(v)))
+                    .collect();
+                self.path.sent(p, v, &mut self.spaces[sp]);
+                let after: Vec<u64> = self.spaces[sp]
+                    .sent_packets
+                    .range(..)
+                    .map(|(n, _)| n)
+                    .collect();
+                let gone: Vec<String> = before
+                    .into_iter()
+                    .filter(|(n, _)| after.binary_search(n).is_err())
+                    .map(|(_, s)| s)
+                    .collect();
+                format!("ok fg={} {}", list(gone), self.acct(sp))
+            }
+            [op @ ("ack" | "lost"), sp, pns @ ..] => {
+                let _ = op;
+                let Some(sp) = space(sp) else {
+                    return BAD.into();
+                };
+                if pns.is_empty() || pns.len() > 64 {
+                    return BAD.into();
+                }
+                let Some(pns) = pns.iter().map(|p| pn(p)).collect::<Option<Vec<u64>>>() else {
+                    return BAD.into();
+                };
+                let mut out = Vec::new();
+                for p in pns {
+                    // Connection::on_ack_received / detect_lost_packets: take, then remove_in_flight
+                    match self.spaces[sp].take(p) {
+                        Some(info) => {
+                            let on_path = self.path.remove_in_flight(&info);
+                            out.push(format!("{}:{}", pkt(&info), u8::from(on_path)));
+                        }
+                        None => out.push("_".into()),
+                    }
+                }
+                format!("ok {} {}", list(out), self.acct(sp))
+            }
+            ["discard", sp] => {
+                let Some(sp) = space(sp) else {
+                    return BAD.into();
+                };
+                // Connection::discard_space (also Retry and 0-RTT rejection for the Data space)
+                let sent_packets = std::mem::take(&mut self.spaces[sp].sent_packets);
+                let mut out = Vec::new();
+                for packet in sent_packets.into_values() {
+                    out.push(pkt(&packet));
+                    self.path.remove_in_flight(&packet);
+                }
+                format!("ok {} {}", list(out), self.acct(sp))
+            }
+            ["burst", sp, start, n, size, g] => {
+                let (Some(sp), Some(start), Some(n), Some(size), Some(g)) =
+                    (space(sp), pn(start), num(n), num(size), num(g))
+                else {
+                    return BAD.into();
+                };
+                let Ok(size) = u16::try_from(size) else {
+                    return BAD.into();
+                };
+                if n == 0 || n > MAX_BURST || self.too_far(sp, start + n - 1) {
+                    return BAD.into();
+                }
+                let (mut k, mut b, mut t) = (0u64, 0u64, 0u64);
+                for p in start..start + n {
+                    let first: Option<(u64, u16, u64)> = self.spaces[sp]
+                        .sent_packets
+                        .range((
+                            Bound::Excluded(self.spaces[sp].largest_ack_eliciting_sent),
+                            Bound::Unbounded,
+                        ))
+                        .next()
+                        .map(|(n, v)| (n, v.size, v.largest_acked.unwrap_or(u64::MAX)));
+                    let v = self.packet(p, size, false, g);
+                    self.path.sent(p, v, &mut self.spaces[sp]);
+                    if let Some((n, sz, tag)) = first {
+                        if self.spaces[sp].sent_packets.get(n).is_none() {
+                            k += 1;
+                            b += u64::from(sz);
+                            t += tag;
+                        }
+                    }
+                }
+                let mut s = format!("ok {k} {b} {t} ");
+                write!(s, "{}", self.acct(sp)).unwrap();
+                s
+            }
+            _ => BAD.into(),
+        }
+    }
+}
